@@ -105,7 +105,7 @@ def run(ctx, driver):
             if g is None or not common.close(g, want, rel=1e-9, abs_=1e-7):
                 ctx.violation(dict(case, use_power=power), want, g,
                               "coefficient == sum over the full DFT spectrum of |X*H|^p, H rebuilt from the truncated response",
-                              tags=dict(clause="full_spectrum_sum", "walk_sum_eq_full_spectrum", Dmod4=D % 4))
+                              tags=dict(clause="full_spectrum_sum", Dmod4=D % 4))
         # correspondence: model hits -> expected integer
         if mo in ("bad-op",):
             ctx.mismatch(case, mo, vals[False], "driver rejected")
